@@ -6,6 +6,7 @@ pub mod c01;
 pub mod c02;
 pub mod c07;
 pub mod c13;
+pub mod c14;
 pub mod c17;
 
 pub fn run(ctx: &Ctx, sh: &mut Shard) {
@@ -14,6 +15,7 @@ pub fn run(ctx: &Ctx, sh: &mut Shard) {
         "C02" => c02::run(ctx, sh),
         "C07" => c07::run(ctx, sh),
         "C13" => c13::run(ctx, sh),
+        "C14" => c14::run(ctx, sh),
         "C17" => c17::run(ctx, sh),
         p => {
             eprintln!("no monitor for {p}");
@@ -27,6 +29,7 @@ pub fn replay(v: &Value, sh: &mut Shard) {
         "C02" => c02::replay(v, sh),
         "C07" => c07::replay(v, sh),
         "C13" => c13::replay(v, sh),
+        "C14" => c14::replay(v, sh),
         "C17" => c17::replay(v, sh),
         p => {
             eprintln!("no replay for {p}");
